@@ -614,7 +614,14 @@ impl PathIssueManager {
         }
 
         // Insert issue
-        self.fifo_issues.push_back((id, marker.timestamp)); // Store timestamp for matching on removal
+        // A report repeating the timestamp of the cached one is already represented in the queue
+        if self
+            .cache
+            .get(&id)
+            .is_none_or(|cached| cached.timestamp != marker.timestamp)
+        {
+            self.fifo_issues.push_back((id, marker.timestamp)); // Store timestamp for matching on removal
+        }
         self.cache.insert(id, marker);
     }
 
